@@ -306,6 +306,41 @@ def conflicting_externals(ctx, rng, n: int) -> Iterator[Tuple[str, Callable]]:
                 yield f"conflicting-external shape {j} domain={dom!r} #{k}", thunk
 
 
+def twin_externals(ctx, rng, n: int) -> Iterator[Tuple[str, Callable]]:
+    """One design instantiating TWO ExternalModule objects that stand for one device (equal declarations under one domain and name,
+    as the Sky130 / GF180 packages define each of theirs twice): the package declares the device once."""
+    import hdl21 as h
+
+    def mkx():
+        return h.ExternalModule(name="TwinDev", domain="hvtwin", port_list=[h.Input(name="a"), h.Output(name="z", width=2)], paramtype=dict)
+
+    def thunk_plain():
+        x1, x2 = mkx(), mkx()
+        m = h.Module(name=f"Tw{next(_uid)}")
+        a, z = m.add(h.Signal(), name="a"), m.add(h.Signal(width=2), name="z")
+        m.add(x1({"k": 1})(a=a, z=z), name="u1")
+        m.add(x2({"k": 2})(a=a, z=z), name="u2")
+        return h.to_proto(m)
+
+    def thunk_pdk(kind):
+        import importlib
+
+        pdk = importlib.import_module(f"{kind}_hdl21")
+        prims = importlib.import_module(f"{kind}_hdl21.primitives")
+        dev = getattr(prims, "NMOS_1p8V_STD" if kind == "sky130" else "NFET_3p3V")
+        m = h.Module(name=f"TwP{next(_uid)}")
+        d, g, s_ = m.add(h.Signal(), name="d"), m.add(h.Signal(), name="g"), m.add(h.Signal(), name="s")
+        m.add(dev()(d=d, g=g, s=s_, b=s_), name="direct")
+        m.add(h.Mos(model="NMOS_1p8V_STD" if kind == "sky130" else "NFET_3p3V")(d=d, g=g, s=s_, b=s_), name="compiled")
+        pdk.compile(m)
+        return h.to_proto(m)
+
+    for k in range(n):
+        yield f"twin external modules #{k}", thunk_plain
+        for kind in ("sky130", "gf180"):
+            yield f"PDK device used directly and through compile ({kind}) #{k}", (lambda kind=kind: thunk_pdk(kind))
+
+
 def collision_designs(ctx, rng, n: int) -> Iterator[Tuple[str, Callable]]:
     """Adversarially named designs (the C05 variants): names the elaborator invents given to designer objects."""
     import hdl21 as h
